@@ -79,6 +79,9 @@ pub fn run(thorough: bool) {
     let a = arr_docs();
     let sc3 = single_scenario("single-first-commit", vec![a[0].clone(), a[3].clone(), a[4].clone(), a[8].clone()], if thorough { 5 } else { 4 }, &[Op::Reopen(0), Op::Unstage(0), Op::ObjPut(0, 1), Op::StageRt(0)]);
     for sc in [sc, sc2, sc3] {
+        if rep.violations.iter().any(|v| v.signature.contains("does-not-return")) {
+            break;
+        }
         // pass 1: every distinct state of the scenario (representative histories)
         let ex = Explorer { sc: sc.clone(), probes: vec![], limits: Limits { pool_size: 1, max_states: if thorough { 60_000 } else { 4_000 }, ..Default::default() } };
         let r = ex.run(true);
@@ -137,21 +140,30 @@ pub fn run(thorough: bool) {
                 n += 1;
                 let bv: Vec<Value> = if cfg.ignore_anchors { b.0.iter().map(strip_anchors).collect() } else { b.0.clone() };
                 if bv != c.0 {
-                    rep.violations.push(Violation { property: "C18".into(), signature: format!("C18:depends-on-{}", label), scenario: sc.name.clone(), history: hists[i].clone(),
-                        detail: json!({"configuration": cfg.name, "differs": (0..bv.len()).map(|r| diff_keys(&bv[r], &c.0[r])).collect::<Vec<_>>(), "baseline": bv, "views": c.0, "menu": {"docs": sc.menu.docs, "infos": sc.menu.infos, "replicas": sc.nrep}}) });
+                    // (a history that does not return under this configuration is recorded as a one-element marker)
+                    let hung = c.0.len() != bv.len();
+                    let sig = if hung { format!("C18:does-not-return-under-{}", label) } else { format!("C18:depends-on-{}", label) };
+                    let differs: Vec<Value> = if hung { vec![] } else { (0..bv.len()).map(|r| json!(diff_keys(&bv[r], &c.0[r]))).collect() };
+                    rep.violations.push(Violation { property: "C18".into(), signature: sig, scenario: sc.name.clone(), history: hists[i].clone(),
+                        detail: json!({"configuration": cfg.name, "differs": differs, "baseline": bv, "views": c.0, "menu": {"docs": sc.menu.docs, "infos": sc.menu.infos, "replicas": sc.nrep}}) });
                     break;
                 }
             }
             n
         };
         for cfg in &configs {
+            // calls that do not return cost one watchdog period each: the verdict is known, stop here
+            if rep.violations.iter().any(|v| v.signature.contains("does-not-return")) {
+                break;
+            }
             let label = cfg.name.split('-').next().unwrap().to_string();
             let n = run_cfg(cfg, &mut rep, &label);
             total_cmp += n;
             cfg_stats.push(json!({"scenario": sc.name, "configuration": cfg.name, "histories_compared": n}));
         }
         // cache capacities (read from the environment at construction; workers are idle between phases)
-        for ac in ["1", "2", "16"] {
+        let hung_already = rep.violations.iter().any(|v| v.signature.contains("does-not-return"));
+        for ac in if hung_already { vec![] } else { vec!["1", "2", "16"] } {
             for dc in ["1", "2", "16"] {
                 if ac == "16" && dc == "16" {
                     continue;
